@@ -35,6 +35,75 @@ def drive_case(case, extra):
     return {"id": case["id"], "e": case["e"], "r": res}
 
 
+def _np_array(nested, shape, lay):
+    """The object array with the logical entries *nested* and the memory layout *lay*."""
+    import numpy as np
+    shape = tuple(shape)
+    if lay == "C":
+        arr = np.empty(shape, dtype=object)
+    elif lay == "F":
+        arr = np.empty(shape, dtype=object, order="F")
+    elif lay == "T":
+        arr = np.empty(shape[::-1], dtype=object).T
+    elif lay == "R":
+        arr = np.empty(shape, dtype=object)[::-1]
+    else:
+        raise ValueError(lay)
+    for idx in np.ndindex(shape):
+        v = nested
+        for i in idx:
+            v = v[i]
+        arr[idx] = v
+    assert arr.tolist() == nested
+    return arr
+
+
+def drive_arr(case, extra):
+    """C02_Arr: the plain evaluator on an object array of expressions (the memoising ones
+    cannot hash an array), result compared as the nested list of entry values."""
+    from pymbolic.mapper.evaluator import EvaluationMapper
+    arr = _np_array(ser.from_json(case["e"]), case["shape"], case["lay"])
+    res = []
+    for env in _envs(extra):
+        def go():
+            r = EvaluationMapper(env)(arr)
+            if r.shape != arr.shape:
+                raise AssertionError(f"result shape {r.shape} for an array of shape {arr.shape}")
+            return r.tolist()
+        res.append([ser.call_to_json(go)])
+    return {"id": case["id"], "e": case["e"], "r": res, "fam": "arr", "lay": case["lay"]}
+
+
+def drive_hist(case, extra):
+    """C02_Hist: replay one history of build / eval / drop operations on ONE plain and ONE
+    memoising mapper per environment; every expression is built afresh from the pool and
+    really dropped, so the addresses of freed nodes are up for reuse as in the model."""
+    from pymbolic.mapper.evaluator import CachedEvaluationMapper, EvaluationMapper
+    pool = extra["pool"]
+    steps = {}      # op index -> per env -> values
+    envs = _envs(extra)
+    for ei, env in enumerate(envs):
+        for cls in (EvaluationMapper, CachedEvaluationMapper):
+            mapper = cls(env)
+            slots = {}
+            for k, op in enumerate(case["hist"]):
+                if op["op"] == "build":
+                    slots[op["s"]] = ser.from_json(pool[op["i"] - 1])
+                elif op["op"] == "drop":
+                    del slots[op["s"]]
+                else:
+                    expr = slots[op["s"]]
+                    v = ser.call_to_json(lambda: mapper(expr))  # noqa: B023
+                    del expr
+                    per = steps.setdefault(k, [[] for _ in envs])
+                    if v not in per[ei]:
+                        per[ei].append(v)
+            del slots, mapper
+    return [{"id": f"{case['id']}.{k}", "e": pool[case["hist"][k]["i"] - 1], "r": per,
+             "fam": "hist", "hist": case["hist"], "step": k}
+            for k, per in sorted(steps.items())]
+
+
 def kinds_in(e, acc=None):
     acc = set() if acc is None else acc
     if isinstance(e, dict):
@@ -48,7 +117,7 @@ def kinds_in(e, acc=None):
     return acc
 
 
-def signature(tree, v):
+def signature(tree, v, fam=None):
     """Attribution pattern of a failing verdict (DESIGN 7.2): the clause TLC named
     plus the smallest structural feature of the input that explains it."""
     pv = v.get("pv", [])
@@ -62,7 +131,36 @@ def signature(tree, v):
     ks = kinds_in(tree)
     if v["v"] == "error-instead-of-value" and "List" in ks and "CSE" in ks:
         return {"clause": "evaluators-reject", "contains": "CSE-over-List"}
+    if fam:
+        return {"clause": v["v"], "root": tree["t"], "family": fam}
     return {"clause": v["v"], "root": tree["t"]}
+
+
+def families(tier, out):
+    """The two further families of C02: histories on one mapper (C02_Hist, S-layer) and
+    object arrays in every memory layout (C02_Arr).  Returns (hist cases, pool, array cases)."""
+    hist = kit.run_tlc("C02_Hist", "C02_Hist" if tier == "quick" else "C02_Hist_thorough", coverage=False)
+    kit.require_clean(hist, "C02 history model (a CSE means its child in every history)")
+    out.add_tlc(hist)
+    hp = hist.printed()
+    pool = [p["pool"] for p in hp if "pool" in p]
+    hcases = [p for p in hp if "hist" in p]
+    arr = kit.run_tlc("C02_Arr", "C02_Arr", workers=4, coverage=False)
+    kit.require_clean(arr, "C02 array model (entrywise meaning in every layout)")
+    out.add_tlc(arr)
+    acases = [p for p in arr.printed() if "lay" in p]
+    if len(pool) != 1 or not hcases or not acases:
+        raise kit.MachineryError("C02 history / array generators printed nothing")
+    # negative controls: the design errors these families exist for must be found by TLC
+    neg = {}
+    for mod, cfg, inv in (("C02_Hist", "C02_Hist_neg", "EveryEvaluationIsTheMeaning"),
+                          ("C02_Arr", "C02_Arr_neg", "EntrywiseMeaning")):
+        r = kit.run_tlc(mod, cfg, workers=4, coverage=False)
+        if inv not in r.invariant_violated:
+            raise kit.MachineryError(f"negative control {cfg}: TLC did not report {inv} violated")
+        neg[cfg] = inv
+    out.extra["negative_controls"] = neg
+    return hcases, pool[0], acases
 
 
 def run(tier, seed, out):
@@ -85,8 +183,21 @@ def run(tier, seed, out):
     for i, c in enumerate(cases):
         c["id"] = i
     kit.log(f"C02: TLC generated {len(cases)} trees ({gen.distinct} states, {gen.wall:.1f}s)")
+    hcases, pool, acases = families(tier, out)
+    for i, c in enumerate(hcases):
+        c["id"] = f"h{i}"
+    for i, c in enumerate(acases):
+        c["id"] = f"a{i}"
+    kit.log(f"C02: {len(hcases)} histories on one mapper, {len(acases)} arrays")
     recs = kit.drive("harness.c02", "drive_case", cases, {"envs": envs[0]})
     out.evaluations += sum(len(vs) if len(vs) > 1 else 4 for r in recs for vs in r["r"])
+    hrecs = [r for rs in kit.drive("harness.c02", "drive_hist", hcases, {"envs": envs[0], "pool": pool})
+             for r in rs]
+    arecs = kit.drive("harness.c02", "drive_arr", acases, {"envs": envs[0]})
+    out.evaluations += 2 * 6 * len(hrecs) + 6 * len(arecs)
+    out.extra["history_steps_judged"] = len(hrecs)
+    out.extra["arrays_judged"] = len(arecs)
+    recs = recs + hrecs + arecs
     shards = kit.write_shards(recs, wd / "trace", "c02", 12000)
     verdicts, st, tr = kit.judge_shards("C02_Judge", "C02_Judge", shards)
     out.states += st
@@ -107,9 +218,10 @@ def run(tier, seed, out):
             continue
         rec = byid[v["id"]]
         nfail += 1
-        out.fail(signature(rec["e"], v),
+        out.fail(signature(rec["e"], v, rec.get("fam")),
                  {"case": rec["e"], "env_index": v["env"], "recorded": rec["r"][v["env"] - 1],
-                  "expected": v.get("exp")})
+                  "expected": v.get("exp"),
+                  **{k: rec[k] for k in ("fam", "hist", "step", "lay") if k in rec}})
     for r in recs:
         out.note_case(r["e"], nontrivial=r["e"]["t"] not in ("Var", "Const"))
     out.samples = [{"tree": r["e"], "recorded_per_env": r["r"]} for r in recs[:: max(1, len(recs) // 3)][:3]]
@@ -126,8 +238,20 @@ def replay(path, out):
     d = json.loads(open(path).read())
     gen = kit.run_tlc("C02_Gen", "C02_Gen_quick")
     envs = [p["envs"] for p in gen.printed() if "envs" in p]
-    case = {"id": 0, "e": d["detail"]["case"]}
-    recs = kit.drive("harness.c02", "drive_case", [case], {"envs": envs[0]})
+    det = d["detail"]
+    if det.get("fam") == "hist":
+        hist = kit.run_tlc("C02_Hist", "C02_Hist_neg", workers=2, coverage=False)   # prints the pool
+        pool = [p["pool"] for p in hist.printed() if "pool" in p][0]
+        recs = [r for r in kit.drive("harness.c02", "drive_hist", [{"id": "h0", "hist": det["hist"]}],
+                                     {"envs": envs[0], "pool": pool})[0]]
+    elif det.get("fam") == "arr":
+        import numpy as np
+        case = {"id": "a0", "e": det["case"], "lay": det["lay"],
+                "shape": list(np.array(ser.from_json(det["case"]), dtype=object).shape)}
+        recs = kit.drive("harness.c02", "drive_arr", [case], {"envs": envs[0]})
+    else:
+        case = {"id": 0, "e": det["case"]}
+        recs = kit.drive("harness.c02", "drive_case", [case], {"envs": envs[0]})
     shards = kit.write_shards(recs, wd / "trace", "c02", 12000)
     verdicts, st, tr = kit.judge_shards("C02_Judge", "C02_Judge", shards)
     out.states += st
@@ -137,5 +261,7 @@ def replay(path, out):
         if v.get("v") == "SKIP":
             out.skipped += 1
             continue
-        out.fail(signature(recs[0]["e"], v), {"case": recs[0]["e"], "env_index": v["env"],
-                                              "recorded": recs[0]["r"][v["env"] - 1]})
+        rec = {r["id"]: r for r in recs}[v["id"]]
+        out.fail(signature(rec["e"], v, rec.get("fam")),
+                 {"case": rec["e"], "env_index": v["env"], "recorded": rec["r"][v["env"] - 1],
+                  **{k: rec[k] for k in ("fam", "hist", "step", "lay") if k in rec}})
